@@ -46,6 +46,10 @@ def run_history(seed, trials):
     problems = []
     for trial in range(trials):
         aw = rng.randint(1, 6); al = rng.choice([0, 0, 1, 2])
+        # one trial in eight uses a very wide map (addresses and sizes beyond 2**53: exact integer arithmetic is required)
+        big = trial % 8 == 7
+        if big:
+            aw = rng.randint(54, 64); al = rng.choice([0, 1, 3, 40])
         m = MemoryMap(addr_width=aw, data_width=rng.choice([8, 16, 32]), alignment=al)
         model, cursor, frozen = [], 0, False
         log = []
@@ -57,6 +61,10 @@ def run_history(seed, trials):
                 if op == "res":
                     size = rng.choice([0, 1, 2, 3, 4, 5, 8, -1, "x"]); addr = rng.choice([None, None, None, 0, 1, 2, 3, 4, 6, 8, 12, 16, -1])
                     ala = rng.choice([None, None, 0, 1, 2, 3, -1]); name = rng.choice(names)
+                    if big:
+                        size = rng.choice([1, 3, (1 << 53) + 1, (1 << 56) + 1, (1 << rng.randint(50, aw - 2)) + rng.choice([0, 1, 5])])
+                        addr = rng.choice([None, None, (1 << rng.randint(53, aw - 1)) + rng.choice([0, 1 << al, 3 << al])])
+                        ala = rng.choice([None, 0, 2, 41, 50])
                     log.append(("add_resource", name, size, addr, ala))
                     s, e = m.add_resource(R(), name=name, size=size, addr=addr, alignment=ala)
                     eff = max(al, ala) if ala is not None else al
@@ -88,7 +96,7 @@ def run_history(seed, trials):
                         problems.append(("window not frozen", log[-1])); break
                     model.append((s, e)); cursor = e
                 elif op == "align":
-                    a = rng.choice([0, 1, 2, 3, -1])
+                    a = rng.choice([0, 1, 2, 3, -1]) if not big else rng.choice([0, 2, 45, 53])
                     log.append(("align_to", a))
                     r = m.align_to(a); cursor = au(cursor, max(a, al))
                     if r != cursor:
@@ -124,6 +132,7 @@ def run_trees(seed, trials):
     R = _R()
     rng = random.Random(seed)
     cnt = [0]
+    problems_early = []
 
     def gen(depth, aw, dw, leaf_align=0):
         m = MemoryMap(addr_width=aw, data_width=dw, alignment=leaf_align if depth == 0 else rng.choice([0, 0, 1]))
@@ -154,8 +163,17 @@ def run_trees(seed, trials):
                         exp.append((res, p, s + cs // r, s + ce // r, cwid * r))
             except ValueError:
                 pass
+            # queries while the map is still being built (a map may be inspected at any time: nothing may be remembered from it)
+            if rng.random() < 0.35:
+                try:
+                    list(m.all_resources()); list(m.resources()); list(m.windows())
+                    m.decode_address(rng.randrange(0, 1 << aw))
+                    if exp:
+                        m.find_resource(exp[rng.randrange(len(exp))][0])
+                except Exception as ex_:
+                    problems_early.append(("query on a map under construction raised", type(ex_).__name__, str(ex_)[:80]))
         return m, exp
-    problems = []
+    problems = problems_early
     for t in range(trials):
         aw = rng.randint(2, 7); dw = rng.choice([8, 16, 32, 32, 24])      # 24: ratio 3 over 8-bit children (must be refused)
         m, exp = gen(rng.randint(0, 3), aw, dw)
